@@ -329,6 +329,13 @@ class Fn:
                 return args[0]
         if generic == "std::clone::Clone::clone" and args:
             return ("call", "clone", args, (self.name, bb))
+        # accessor inlining: a local straight-line function without effects is replaced by its body
+        if t["res"] == "item" and callee in self.facts.fns and len(stack) < 40:
+            g = self.facts.fns[callee]
+            if g is not self and g.is_simple_accessor():
+                r = g.origin_local(0)
+                if not mentions(r, lambda s: s[0] in ("var", "unknown", "built", "env")):
+                    return subst_params(r, list(args))
         return ("call", generic if t["res"] in ("unresolved", "virtual") else callee, args, (self.name, bb))
 
     def origin_operand(self, o, stack=()):
@@ -397,6 +404,25 @@ class Fn:
 
     def op_origin(self, o):
         return self.origin_operand(o)
+
+    def is_simple_accessor(self):
+        if hasattr(self, "_simple"):
+            return self._simple
+        self._simple = False
+        live = self.live_blocks()
+        if len(live) > 5 or self.kind == "Closure":
+            return False
+        for b in live:
+            t = self.term(b)
+            if t["k"] in ("switch", "assert"):
+                return False
+            if t["k"] == "call" and not (t["callee"] in TRANSPARENT_CALLS or t["callee"] == "std::clone::Clone::clone"):
+                return False
+            for s in self.blocks[b]["stmts"]:
+                if s["k"] == "assign" and "deref" in s["place"]["p"]:
+                    return False
+        self._simple = True
+        return True
 
     def place_origin(self, p):
         return self.origin_place(p)
@@ -933,3 +959,161 @@ def field_path(e):
             names.append(e[2])
         e = e[1]
     return e, list(reversed(names))
+
+
+# ---------------------------------------------------------------------------------------------
+# A2: path enumeration (back edges cut: a loop head may be entered twice, every other block once)
+
+def back_edge_heads(fn):
+    heads = set()
+    color = {}
+    def dfs(u):
+        color[u] = 1
+        for v in fn.succs(u):
+            if color.get(v) == 1:
+                heads.add(v)
+            elif v not in color:
+                dfs(v)
+        color[u] = 2
+    dfs(0)
+    return heads
+
+
+def enum_paths(fn, start=0, ends=None, limit=20000, avoid=()):
+    """all start->end block sequences of the non-cleanup CFG (ends default: return blocks)"""
+    ends = set(fn.return_blocks()) if ends is None else set(ends)
+    heads = back_edge_heads(fn)
+    avoid = set(avoid)
+    out = []
+    path = []
+    count = defaultdict(int)
+
+    def go(b):
+        if len(out) >= limit:
+            return
+        if b in avoid:
+            return
+        cap = 2 if b in heads else 1
+        if count[b] >= cap:
+            return
+        count[b] += 1
+        path.append(b)
+        if b in ends and len(path) > 0 and (b != start or len(path) > 1 or not fn.succs(b)):
+            out.append(list(path))
+        else:
+            for s in fn.succs(b):
+                go(s)
+        path.pop()
+        count[b] -= 1
+
+    go(start)
+    return out
+
+
+def is_log_block_term(t):
+    m = t.get("mac", "")
+    return "log::" in m
+
+
+def path_atoms(fn, path):
+    """branch facts along a path: [('bool', expr, truth, bb) | ('enum', scrutinee, variant, bb)], log-macro branches erased"""
+    atoms = []
+    for b, nxt in zip(path, path[1:]):
+        t = fn.term(b)
+        if t["k"] != "switch" or is_log_block_term(t):
+            continue
+        br = bool_branch(fn, b)
+        if br:
+            expr, tt, ft = br
+            if tt != ft:
+                atoms.append(("bool", expr, nxt == tt, b))
+            continue
+        ve = variant_edges(fn, b)
+        if ve:
+            scrut, edges = ve
+            names = sorted({n for n, tgt in edges if tgt == nxt})
+            atoms.append(("enum", scrut, tuple(names), b))
+    return atoms
+
+
+def path_calls(fn, path, include_log=False):
+    out = []
+    for b in path:
+        t = fn.term(b)
+        if t["k"] == "call" and (include_log or not is_log_block_term(t)):
+            out.append((b, t))
+    return out
+
+
+def path_return(fn, path, atoms=None):
+    """abstract return value of a path: ('agg', adt, variant, fields) / ('variant-of', expr, names) / expr"""
+    atoms = path_atoms(fn, path) if atoms is None else atoms
+    last = None
+    for b in path:
+        for i, s in enumerate(fn.blocks[b]["stmts"]):
+            if s["k"] == "assign" and s["place"]["l"] == 0 and not s["place"]["p"]:
+                last = ("stmt", b, i, s["rv"])
+        t = fn.term(b)
+        if t["k"] == "call" and t["dest"]["l"] == 0 and not t["dest"]["p"]:
+            last = ("call", b, t)
+    if last is None:
+        return ("unit",)
+    if last[0] == "call":
+        return fn.origin_call(last[1], last[2])
+    e = fn.origin_rvalue(last[3])
+    if e[0] == "agg":
+        return e
+    # a forwarded value: refine by the enum atoms on this path
+    cands = e[1] if e[0] == "phi" else (e,)
+    for a in atoms:
+        if a[0] == "enum":
+            for c in cands:
+                if strip_site(a[1]) == strip_site(c):
+                    return ("variant-of", c, a[2])
+    return e
+
+
+def ret_variant(r):
+    """variant name(s) of an abstract return value, or None"""
+    if r[0] == "agg":
+        return (r[2],)
+    if r[0] == "variant-of":
+        return r[2]
+    return None
+
+
+def subst_params(e, args):
+    """rewrite an expression over a callee's parameters into the caller's terms"""
+    if not isinstance(e, tuple) or not e:
+        return e
+    if e[0] == "param":
+        i = e[1] - 1
+        return args[i] if 0 <= i < len(args) else ("unknown", "param")
+    if e[0] == "field":
+        return project(subst_params(e[1], args), e[2])
+    if e[0] == "variant":
+        return downcast(subst_params(e[1], args), e[2])
+    return tuple(subst_params(x, args) if isinstance(x, tuple) else x for x in e)
+
+
+def unclone(e):
+    """value-equality view: clone(x) == x"""
+    if not isinstance(e, tuple) or not e:
+        return e
+    if e[0] == "call" and e[1] == "clone" and len(e[2]) == 1:
+        return unclone(e[2][0])
+    return tuple(unclone(x) if isinstance(x, tuple) else x for x in e)
+
+
+def same_value(a, b):
+    return strip_site(unclone(a)) == strip_site(unclone(b))
+
+
+def inline_ctor(F, e):
+    """call to a local constructor-like function whose return value is one aggregate -> that aggregate over the args"""
+    if isinstance(e, tuple) and e and e[0] == "call" and e[1] in F.fns:
+        f = F.fns[e[1]]
+        r = f.origin_local(0)
+        if r[0] == "agg":
+            return subst_params(r, list(e[2]))
+    return e
